@@ -3,6 +3,7 @@ package http2
 import (
 	"bytes"
 	"errors"
+	"math"
 	"strconv"
 )
 
@@ -59,7 +60,14 @@ func parseUint(b []byte) (int, error) {
 			return 0, errInvalidUint
 		}
 
-		n = n*10 + int(c-'0')
+		d := int(c - '0')
+		if n > (math.MaxInt-d)/10 {
+			// too many digits to be a length or a status code; wrapping
+			// around would turn it into a small, plausible number
+			return 0, errInvalidUint
+		}
+
+		n = n*10 + d
 	}
 
 	return n, nil
